@@ -102,10 +102,10 @@ def match_returned_at_once(c, f, dn, v, calls, what, tag):
     redefs = set(n for n in g.nodes if n in live and n is not dn and n.kind == 'stmt' and v in assigned_names(n.ast))
     others = set(n for n in g.nodes if n in live and n.kind == 'stmt' and isinstance(n.ast, (ast.Return, ast.Raise)) and n not in rets)
     goal = (bad | others | redefs | {g.exit}) - set(rets)
-    p = g.path(dn, goal, avoid=set(rets), skip_labels=('exc',), include_start=False, assume=[('%s is None' % v, False, {v})])
+    p = g.path(dn, goal, avoid=set(rets) | {dn}, skip_labels=('exc',), include_start=False, assume=[('%s is None' % v, False, {v})])
     c.check(bool(rets) and p is None, f, dn.ast, what,
             witness=('with %s holding a match, control can go: ' % v + g.describe_path(p)) if p else ('no `return %s`' % v if not rets else None), kind='path', tag=tag)
-    p2 = g.path(dn, set(rets), avoid=redefs, skip_labels=('exc',), include_start=False, assume=[('%s is None' % v, True, {v})]) if rets else None
+    p2 = g.path(dn, set(rets), avoid=redefs | {dn}, skip_labels=('exc',), include_start=False, assume=[('%s is None' % v, True, {v})]) if rets else None
     c.check(p2 is None, f, dn.ast, 'the "no match" value None is never returned as an index', witness=g.describe_path(p2) if p2 else None, kind='path', tag=tag + ':none')
 
 
